@@ -1045,7 +1045,21 @@ impl Scn {
             }
             "forget" => {
                 let n = op["n"].as_u64().unwrap_or(1);
-                match cl.forget_target(op) {
+                let mut tgt = cl.forget_target(op);
+                if let (Some(m), Some(h)) = (op["mn"].as_u64(), op["hint"].as_array()) {
+                    // a number of a TLC history that the client was never given: learn the real one behind the
+                    // hinted name by a lookup that is forgotten again at once
+                    if !cl.model.contains_key(&m) && !h.is_empty() {
+                        let mut tmp = Vec::new();
+                        if let Ok(k) = chain(fs, &ctx, &path_of(&op["hint"]), &mut tmp) {
+                            tgt = Some(k);
+                        }
+                        for i in tmp.into_iter().rev() {
+                            fs.forget(&ctx, i, 1);
+                        }
+                    }
+                }
+                match tgt {
                     Some(i) => {
                         ev["held"] = json!(cl.counts.get(&i).copied().unwrap_or(0));
                         let r = catch_unwind(AssertUnwindSafe(|| fs.forget(&ctx, i, n)));
